@@ -113,7 +113,8 @@ def run(rep, tier):
         raise AnalysisBroken("add_op_state: expected one compare_exchange")
     b, i, ev = cas[0]
     fb = ff.before.get((b, i)) or frozenset()
-    tested = any((not t) and "op_state->next" in a and "this" in a and "==" in a for a, t in fb)
+    OPN = ao.params[0]["name"] + "->next"        # the new waiter's link field (the parameter's name is free)
+    tested = any((not t) and OPN in a and "this" in a and "==" in a for a, t in fb)
     if tested:
         rep.ok("C04.R2", ao, "every CAS attempt is preceded by the sentinel test op_state->next == this since next was last (re)loaded")
     else:
@@ -124,7 +125,7 @@ def run(rep, tier):
             fbr = ff.before[(bb, ii)]
             if v.get("v") is True and not any(t and "compare_exchange" in a for a, t in fbr):
                 rep.bad("C04.R2", ao, loc_of(e), "true-without-cas", "add_op_state returns true without a successful compare-exchange")
-            elif v.get("v") is False and not any(t and "op_state->next" in a and "==" in a for a, t in fbr):
+            elif v.get("v") is False and not any(t and OPN in a and "==" in a for a, t in fbr):
                 rep.bad("C04.R2", ao, loc_of(e), "false-without-sentinel", "add_op_state returns false although the state was not found granted")
             else:
                 rep.ok("C04.R2", ao, "returns %s on the right edge" % T(v))
@@ -138,9 +139,11 @@ def run(rep, tier):
         rep.bad("C04.R3", dn, dn.loc, "exchange", "done() must take the waiter list with exactly one exchange(this, >=acq_rel)")
     if len(cont) == 1:
         cb, ci, cev = cont[0]
-        nxt = lambda e: e.get("k") == "decl" and e.get("init") is not None and P(e["init"]) == "current->next"
-        rd = precedes_on_all_paths(dn, nxt, (cb, ci), reset_pred=lambda e: (e.get("k") == "write" and P(e["lhs"]) == "current"))
-        late = [e for e in dn.blocks[cb].events[ci + 1:] if e.get("k") in ("read", "decl") and "current->next" in T(e.get("e") or e.get("init"))]
+        CUR = P(cev.get("recv"))          # the node whose continuation runs (name is free)
+        CURN = CUR + "->next"
+        nxt = lambda e: e.get("k") == "decl" and e.get("init") is not None and P(e["init"]) == CURN
+        rd = precedes_on_all_paths(dn, nxt, (cb, ci), reset_pred=lambda e: (e.get("k") == "write" and P(e["lhs"]) == CUR))
+        late = [e for e in dn.blocks[cb].events[ci + 1:] if e.get("k") in ("read", "decl") and CURN in T(e.get("e") or e.get("init"))]
         if rd and not late and loop_of(dn, cb) is not None:
             rep.ok("C04.R3", dn, "current->next is read before current->continuation() (which may destroy the node), in a loop over the whole list")
         else:
